@@ -32,6 +32,8 @@ class OpTimeout(BaseException):
 
 
 OP_TIMEOUT_S = float(os.environ.get("VERIF_OP_TIMEOUT", "60"))
+HARNESS_TIMEOUT_S = 5 * OP_TIMEOUT_S  # budget of the harness's own code around the library calls of one op
+_ARMED = [False]
 
 
 def _on_alarm(signum, frame):
@@ -111,10 +113,18 @@ def _origin(tb) -> tuple[str, str]:
 def lib_call(fn, *a, **k) -> CallResult:
     """Call into the library. An exception whose innermost non-third-party frame
     is under /repo is a library outcome; anything else is a harness error."""
+    import signal
+
     try:
+        if _ARMED[0]:
+            signal.setitimer(signal.ITIMER_REAL, OP_TIMEOUT_S)  # each library call gets the whole budget
         with warnings.catch_warnings():
             warnings.simplefilter("ignore")
-            return CallResult(True, fn(*a, **k))
+            try:
+                return CallResult(True, fn(*a, **k))
+            finally:
+                if _ARMED[0]:
+                    signal.setitimer(signal.ITIMER_REAL, HARNESS_TIMEOUT_S)  # a slow library call does not starve the oracle
     except (KeyboardInterrupt, SystemExit, MemoryError):
         raise
     except BaseException as e:  # noqa
@@ -266,11 +276,12 @@ class Session:
         armed = OP_TIMEOUT_S > 0 and threading.current_thread() is threading.main_thread()
         if armed:
             old_handler = signal.signal(signal.SIGALRM, _on_alarm)
-            signal.setitimer(signal.ITIMER_REAL, OP_TIMEOUT_S)
+            signal.setitimer(signal.ITIMER_REAL, HARNESS_TIMEOUT_S)
+            _ARMED[0] = True
         try:
             out: Outcome = spec.run(self, op)
         except OpTimeout as e:
-            raise HarnessError(f"op {kind} did not finish within {OP_TIMEOUT_S:.0f} s and the innermost frame is not library code: {e}") from e
+            raise HarnessError(f"op {kind}: harness code did not finish within {HARNESS_TIMEOUT_S:.0f} s (innermost frame is not library code): {e}") from e
         except HarnessError:
             raise
         except RecursionError:
@@ -281,6 +292,7 @@ class Session:
             ) from e
         finally:
             if armed:
+                _ARMED[0] = False
                 signal.setitimer(signal.ITIMER_REAL, 0)
                 signal.signal(signal.SIGALRM, old_handler)
         self.oplog.append(op)
